@@ -92,12 +92,15 @@ fn payload_term(rng: &mut Rng, uid: u64) -> OwnedTerm {
 }
 
 /// Every operation x argument class against a directly driven Connection, in one framing mode.
-async fn single_ops(ctx: &Ctx, rng: &mut Rng, epmd: &net::EpmdTable, header_mode: bool, round: usize) {
+/// `offers`: (this side offers the distribution header, the peer offers it). The negotiated mode is header
+/// mode only when both do; every other combination must produce pass-through frames.
+async fn single_ops(ctx: &Ctx, rng: &mut Rng, epmd: &net::EpmdTable, offers: (bool, bool), round: usize) {
+    let header_mode = offers.0 && offers.1;
     ctx.beat(&format!("single-ops/{}", round));
-    let name = format!("s{}{}", if header_mode { "h" } else { "p" }, round);
+    let name = format!("s{}{}x{}", if offers.0 { "h" } else { "p" }, if offers.1 { "h" } else { "p" }, round);
     let pl = net::listen_as(epmd, &name).await;
-    let own_flags = DistributionFlags::default().as_u64() | if header_mode { FLAG_DIST_HDR_ATOM_CACHE } else { 0 };
-    let peer_flags = PEER_BASE_FLAGS | FLAG_DIST_HDR_ATOM_CACHE;
+    let own_flags = DistributionFlags::default().as_u64() | if offers.0 { FLAG_DIST_HDR_ATOM_CACHE } else { 0 };
+    let peer_flags = PEER_BASE_FLAGS | if offers.1 { FLAG_DIST_HDR_ATOM_CACHE } else { 0 };
     let (tx, mut rx) = tokio::sync::mpsc::unbounded_channel::<Vec<u8>>();
     let peer_task = tokio::spawn(async move {
         let mut peer = match pl.accept("cookie", peer_flags, 77).await {
@@ -214,7 +217,12 @@ async fn single_ops(ctx: &Ctx, rng: &mut Rng, epmd: &net::EpmdTable, header_mode
             }
         };
         ctx.eval(1);
-        let mode = if header_mode { "header" } else { "pass-through" };
+        let mode = match offers {
+            (true, true) => "header",
+            (false, true) => "pass-through",
+            (true, false) => "pass-through(peer-declined-header)",
+            (false, false) => "pass-through(nobody-offers-header)",
+        };
         ctx.class(&format!("single/{}/{}/{}/{}", mode, issued.op, if issued.must_contain.is_empty() { "plain-pid" } else { "local-pid" }, match sticky { 0 => "same-destination-again", 1 | 2 => "same-destination-other-form", _ => "fresh-destination" }));
         // a plain pid must be written plainly: no LOCAL_EXT tag in front of it
         let must_not_be_local = issued.must_contain.is_empty() && matches!(issued.op, "send" | "link" | "unlink" | "monitor" | "demonitor");
@@ -625,7 +633,7 @@ async fn concurrent(ctx: &Ctx, rng: &mut Rng, epmd: &net::EpmdTable, run_id: usi
 }
 
 pub fn run(ctx: &Ctx) {
-    ctx.rule("(1) every operation (send, send_to_name, link, unlink, monitor, demonitor) x argument classes (plain and node-local pids, names of 0..255 chars incl. non-ASCII, payloads from the term generator, unlink ids over the 64-bit range, references of 1..3 words) x both framing modes against a directly driven Connection, each frame read by an independent implementation; operations before the handshake and after a handshake that failed at its last steps (wrong ack digest, refusal status, short ack, close), with the peer recording any byte that still arrives; frames of 1..13 MiB written while the peer is not reading yet, followed by a small frame, in both modes; (2) 2..64 tasks x 5..40 operations through one Node on a current-thread runtime with seeded yields at the partial-write hooks and on a multi-thread runtime; evaluations = operations judged; distinct = distinct (mode, operation, argument class) + concurrency configurations + observed frame interleavings (hash of the caller sequence at the peer)");
+    ctx.rule("(1) every operation (send, send_to_name, link, unlink, monitor, demonitor) x argument classes (plain and node-local pids, names of 0..255 chars incl. non-ASCII, payloads from the term generator, unlink ids over the 64-bit range, references of 1..3 words) x all four combinations of which side offers the distribution header (header mode only when both do) against a directly driven Connection, each frame read by an independent implementation; operations before the handshake and after a handshake that failed at its last steps (wrong ack digest, refusal status, short ack, close), with the peer recording any byte that still arrives; frames of 1..13 MiB written while the peer is not reading yet, followed by a small frame, in both modes; (2) 2..64 tasks x 5..40 operations through one Node on a current-thread runtime with seeded yields at the partial-write hooks and on a multi-thread runtime; evaluations = operations judged; distinct = distinct (mode, operation, argument class) + concurrency configurations + observed frame interleavings (hash of the caller sequence at the peer)");
     ctx.assume("unique ids travel in the payload, or in the `from` pid for payload-less operations");
     let mut rng = Rng::derive(ctx.seed, 7, 1);
     {
@@ -633,8 +641,12 @@ pub fn run(ctx: &Ctx) {
         rt.block_on(async {
             let epmd = net::start_epmd().await;
             for round in 0..ctx.pick(2usize, 20usize) {
-                single_ops(ctx, &mut rng, &epmd, false, round).await;
-                single_ops(ctx, &mut rng, &epmd, true, round).await;
+                single_ops(ctx, &mut rng, &epmd, (false, true), round).await;
+                single_ops(ctx, &mut rng, &epmd, (true, true), round).await;
+                single_ops(ctx, &mut rng, &epmd, (true, false), round).await;
+                if round % 2 == 0 {
+                    single_ops(ctx, &mut rng, &epmd, (false, false), round).await;
+                }
                 after_failed_handshake(ctx, &epmd, round).await;
                 if round == 0 || !ctx.quick() {
                     big_frames(ctx, &epmd, round).await;
